@@ -1,24 +1,33 @@
 from vp.api import Q, Mutant
 TITLE = "Collective activations reach each destination exactly once"
-U = ["parsec/remote_dep.c", "parsec/remote_dep.h", "parsec/remote_dep_mpi.c"]
+U = ["parsec/remote_dep.c", "parsec/remote_dep.h"]
 KF = "C13-chain-relay-differing-dests"
+PATCH_H = ("parsec/remote_dep.h", r"output\[1\];", "output[VP_NOUT];")
+PATCH_KEY = ("parsec/remote_dep_mpi.c",
+             r"parsec_remote_deps_t \*deps = \(parsec_remote_deps_t\*\)item->cmd\.activate\.task\.source_deps;",
+             "parsec_remote_deps_t *deps = VP_KEY2DEPS(item->cmd.activate.task.source_deps);")
+TOPO = {0: "star", 1: "chain", 2: "binomial"}
 OUTSIDE = []
 ASSUMPTIONS = []
 BOUNDS = {}
-PATCH = [("parsec/remote_dep.h", r"output\[1\];", "output[VP_NOUT];")]
-TOPO = {0: "star", 1: "chain", 2: "binomial"}
 
-def relay_q(nr, nout, topo, short, tiers=("quick", "thorough"), timeout=1500):
-    return Q("relay_%s_n%d_o%d_s%d" % (TOPO[topo], nr, nout, short), ["relay.c"],
-             defs=["NR=%d" % nr, "NOUT=%d" % nout, "VP_NOUT=%d" % nout, "TOPO=%d" % topo, "SHORT=%d" % short],
-             unwind=max(nr, nout) + 2, unwindset=["remote_dep_bcast_binomial_child.0:33"],
-             object_bits=12, patches=PATCH, units=U, kf=(KF if topo else None), slow=True, timeout=timeout, tiers=tiers,
-             info={})
+def unwindset(nr, nout):
+    m = nout + 1
+    return ["remote_dep_bcast_binomial_child.0:33", "parsec_lifo_push.1:2", "parsec_remote_dep_activate.7:2",
+            "parsec_remote_dep_activate.8:%d" % m, "remote_dep_complete_and_cleanup.1:%d" % m,
+            "parsec_remote_dep_propagate.1:%d" % m, "parsec_remote_dep_propagate.0:2"]
+
+def pair_q(nr, nout, topo, part, tiers=("quick", "thorough"), timeout=1500):
+    return Q("pair_%s_n%d_o%d_%s" % (TOPO[topo], nr, nout, "ab"[part]), ["pair.c"],
+             defs=["NR=%d" % nr, "NOUT=%d" % nout, "VP_NOUT=%d" % nout, "TOPO=%d" % topo, "PART=%d" % part],
+             unwind=max(nr, nout) + 1, unwindset=unwindset(nr, nout), object_bits=12, patches=[PATCH_H], units=U,
+             kf=(KF if (topo and part == 0) else None), timeout=timeout, tiers=tiers, info={})
 
 def queries(ctx):
     qs = []
     for topo in (0, 1, 2):
-        qs.append(relay_q(3, 2, topo, 1))
+        for part in (0, 1):
+            qs.append(pair_q(4 if topo == 2 else 3, 2, topo, part))
     return qs
 
 def mutants(ctx):
